@@ -143,6 +143,16 @@ def run_tier_case(case):
         models.cmp_num(bs["maxT"], Fraction(spec["maxT"]), exact, [s, d, spec["maxT"] + d], "inverse maxTimestamp", k=8)
         if bs["minT"] != spec["minT"]:
             raise Violation("timestamp-changed", f"inverse minTimestamp {bs['minT']} != {spec['minT']}")
+        if mode == "split":
+            # after a split nothing lies inside the inserted gap (entries only touch it): every erase mode undoes it alike
+            for m2 in ("categorical", "error"):
+                try:
+                    with quiet():
+                        back2 = res.eraseRegion(s, s + d, m2, True)
+                except p.errors.PraatioException as e:
+                    raise Violation("inverse-failed", f"{type(e).__name__}: {e} for {what}.eraseRegion({s!r},{s + d!r},{m2!r},True) on {spec['entries']}")
+                if snap_tier(back2) != bs:
+                    raise Violation("inverse-mode-dependent", f"{what} undone with {m2!r}: {snap_tier(back2)['entries']} != with 'truncate': {bs['entries']}")
     nt = bool({"straddler", "entry_starts_at_s", "point_at_s"} & set(classes))
     return {"classes": classes, "nontrivial": nt}
 
